@@ -55,7 +55,7 @@ static ExecResult execute_plan(Plan &plan, uint64_t index) {
     set_current_run_info(index, plan.seed, plan.world.c_str());
     run_begin(cfg_from_plan(plan));
     set_exact_fit(plan.get("exact_fit", 0) != 0);
-    alarm((unsigned)plan.get("wall_cap_s", 30));
+    alarm((unsigned)plan.get("wall_cap_s", 20));
     r.nontrivial = w->execute(plan);
     alarm(0);
     run_end(r.stats);
@@ -136,10 +136,11 @@ static int cmd_search(int argc, char **argv) {
     FILE                           *hf     = prefix.empty() ? nullptr : fopen((prefix + ".hashes").c_str(), "wb");
     FILE                           *obsf   = prefix.empty() ? nullptr : fopen((prefix + ".obs").c_str(), "wb");
     for (uint64_t k = 0; k < count; k++, i += stride) {
-        if ((k & 15) == 0 && now_s() - t0 > time_s) break;
+        if (now_s() - t0 > time_s) break;
         Plan plan;
         plan.world = wname;
         plan.seed  = run_seed(master, wname.c_str(), i);
+        plan.cfg["run_index"] = (int64_t)i; // enumerating worlds derive their case from the index
         w->generate(plan, plan.seed, tier);
         apply_overrides(argc, argv, plan);
         std::string before_text;
@@ -222,6 +223,7 @@ static int cmd_gen(int argc, char **argv) {
     Plan plan;
     plan.world = wname;
     plan.seed  = run_seed(master, wname.c_str(), index);
+    plan.cfg["run_index"] = (int64_t)index;
     w->generate(plan, plan.seed, tier);
     apply_overrides(argc, argv, plan);
     fputs(plan.to_text().c_str(), stdout);
